@@ -18,7 +18,8 @@ from ..ordtype import weak_orderings, Ordering, Evaluator, OrdError
 from ..poly import Poly, le, lt
 from ..terms import Terms, reify, plain, match, V, ANY, show, subterms, \
     mk_cmp, is_none, method_calls, alternatives, stores, yields, one_level
-from ..util import calls_in, qual, formals, returns_of, has_fact, parse_expr
+from ..util import calls_in, qual, formals, returns_of, has_fact, parse_expr, \
+    bind
 
 GEO = "rig.geometry"
 LNK = "rig.links"
@@ -854,6 +855,62 @@ def r4_stateless(program, rep):
     rep.floor("C11-R4", 15)
 
 
+_AXIS = {"width": "W", "w": "W", "height": "H", "h": "H",
+         "x": "X", "y": "Y", "root_x": "RX", "root_y": "RY"}
+
+
+def _axis_of(expr):
+    c = chain(expr)
+    if c is None:
+        return None
+    return _AXIS.get(c.rsplit(".", 1)[-1].lstrip("_"))
+
+
+def r5_callers(program, rep):
+    """The geometry functions take the two dimensions of the torus (and the
+    two coordinates of a chip) as separate arguments: a caller that hands
+    over a variable named for one axis where the other axis is expected
+    computes lengths and vectors on the transposed torus.  Judged by name:
+    only actuals that are plain variables / attributes named for an axis
+    (width, height, w, h, x, y, root_x, root_y) take part; anything else is
+    of unknown axis and passes."""
+    geo = program.module(GEO)
+    targets = {q: fn for q, fn in program.functions(GEO)
+               if "." not in q and any(
+                   _AXIS.get(a) for a in formals(fn))}
+    n = 0
+    for name in sorted(program.modules):
+        m = program.modules[name]
+        calls = [c for c in ast.walk(m.tree) if isinstance(c, ast.Call) and
+                 call_name(c)[0] in targets]
+        if not calls:
+            continue
+        program.module(name)
+        for c in calls:
+            fn = targets[call_name(c)[0]]
+            b = bind(c, fn, skip_self=False)
+            for formal, actual in sorted(
+                    (k, v) for k, v in b.items() if isinstance(v, ast.AST)):
+                want = _AXIS.get(formal)
+                got = _axis_of(actual)
+                if want is None or got is None:
+                    continue
+                n += 1
+                rep.check(want == got, "C11-R5", "%s:%d" % (name, c.lineno),
+                          "%s(%s=%s): the argument is named for the axis "
+                          "the parameter stands for" % (
+                              fn.name, formal, unparse(actual)),
+                          construct="%s(... %s=%s ...)" % (
+                              fn.name, formal, unparse(actual)), node=c,
+                          fail="%s is called with %s where its parameter %s "
+                               "is expected: the two axes are swapped, so "
+                               "lengths and vectors are those of the "
+                               "transposed torus (wrong whenever width != "
+                               "height)" % (fn.name, unparse(actual),
+                                            formal))
+    rep.floor("C11-R5", 6)
+
+
 def check(program, rep):
     program.module(GEO)
     folder = Folder(program)
@@ -861,6 +918,7 @@ def check(program, rep):
     rep.guard("C11-R2", r2_walk, program, folder, rep)
     rep.guard("C11-R3", r3_closed_forms, program, folder, rep)
     rep.guard("C11-R4", r4_stateless, program, rep)
+    rep.guard("C11-R5", r5_callers, program, rep)
     return finish(rep, program, EXPLANATION, NOT_DECIDED,
                   trusted=["link vector table VEC in rules/C11.py",
                            "ORDTYPE evaluator"], exhaustive=True)
